@@ -48,7 +48,7 @@ func refSettingsApply(cur [7]uint32, payload []byte, ack bool) (vals [7]uint32, 
 // override earlier ones, unknown ids are ignored, absent ones keep their
 // value, and hasWindowSize says whether INITIAL_WINDOW_SIZE was present.
 //
-//verif:harness prop=C18,C06 unwind=16 timeout=300
+//verif:harness prop=C18,C06 unwind=16 timeout=300 timeoutT=3000
 func VerifH_C18_parse() {
 	n := vRange(0, vPick(2, 3))
 	extra := vRange(0, 1) // a trailing partial entry
